@@ -10,8 +10,6 @@ CLAIMED = {
    ref="DESIGN.md §4 C20"),
 }
 NA = {
- "C05": "Inverse-of-addition quantifies over pairs of computed values: __ymd_diff / __yd_diff borrow from month and year lengths looked up per operand (the February double borrow, the leap-day matrix) and the property relates their result to what dt_dadd computes from it. The only structural clauses -- choice of duration type from the format, 64-bit day*seconds products, sign handling of the printed duration -- are decided under C06; the arithmetic agreement of two independent multi-step routines over all pairs is out of reach of dataflow, typestate or table rules.",
- "C16": "Nearest-target rounding and idempotence compare the result with every other candidate date/time ('nearest on the requested side') and with a second application of the same routine; dround's routines compute the result through calendar conversions and modular arithmetic on run-time values. No clause of it is a pairing, ordering, ownership or table-agreement fact; the one memory-safety style observation (unchecked `% sdur` divisor) is reported as a note under C10's divisor rule.",
 }
 CLAIMED["C02"] = dict(
    text="Decides, for every representation tag and every format string at once, the structural necessary conditions of `formatting is independent of the internal representation`: each accessor/dispatch the date printers reach handles every representation that can reach it; no print-record slot is printed before its lazy fill-in; the overloaded day slot keeps its tag; the printers do not branch on the tag outside exhaustive dispatches. Also checks the Hijri month table (monotone, 29/30-day steps, equal to data/ummulqura.tab). Does not decide that conversions are arithmetically correct or that round trips are identities.",
@@ -122,6 +120,20 @@ CLAIMED["C07"] = dict(
    note="That the closed forms count Monday-Friday days exactly for every (weekday, count), the month tables of business days and the bizda <-> ymd conversions are NOT decided: they are value-level facts. This is a thin claim and says so.",
    technique="static analysis: interval abstract interpretation of % operands in the integers, switch coverage against the operand interval, sibling constant agreement",
    ref="DESIGN.md §4 C07")
+
+
+CLAIMED["C05"] = dict(
+   text="Decides structural necessary conditions of `the printed difference inverts addition` in the five difference routines, and nothing more: (1) each of __ymd_diff, __yd_diff, __ywd_diff, __ymcw_diff begins by ordering its two operands -- a swap under `first later than second` (d1.u > d2.u or __ymcw_cmp(d1, d2) > 0, in any spelling) that also sets the sign flag, before any other use of the operands -- so diff(B, A) is diff(A, B) with the sign flipped by construction; __daisy_diff is the signed d2 - d1; (2) the coarse difference is the linear form the adders invert: months = 12 * (y2 - y1) + (m2 - m1) for ymd / ymcw, split back with the same 12; years = y2 - y1, days = d2 - d1 for yd; weeks = c2 - c1 for ywd; (3) every borrow gives up exactly one period and adds that period's length: the month before (y2, m2) is formed first (1 -> 12 with the year decremented), __get_mdays of exactly that (year, month) is added, the month count drops by one -- for both borrows of __ymd_diff (the February double borrow) and the one of __ymcw_diff; a week is 7 days and a year is __get_isowk(year before the later operand's) weeks for ywd; a year is 365 + leap day for yd; a month is borrowed only when the day part is short and a month is there to give; (4) dt_ddiff converts both operands to the calendar of the duration type and hands them, first operand first, to that calendar's routine.",
+   note="That the duration, added back largest unit first, lands exactly on the later value for all pairs, the leap-day matrix of __yd_diff, and the time-part carry (its sign handshake is decided under C06) are NOT decided: they relate two independently written value computations. Thin claim, stated as such.",
+   technique="static analysis: statement-order and swap-shape rules on the AST, linear forms over operand members, borrow pairing (step -> length -> decrement) by node order, dispatch and operand-order agreement",
+   ref="DESIGN.md §4 C05")
+
+
+CLAIMED["C16"] = dict(
+   text="Decides structural necessary conditions of nearest-target rounding in src/dround.c, and nothing more: (1) the eight value-rounding siblings (hour, minute, second; day of month, business day, month, weekday, ISO week) are one and the same four-way decision -- (forward && F < T) || (backward && F > T): no carry; F == T && !next: stays; forward: carry up; else: borrow down -- with the same field and target in all tests, strict comparisons, the direction flag meaning what its definition says, only increments in the forward arm and only decrements in the backward arm, the carry going into the field directly above F, wrap constants equal to that field's size (24, 60, 12), gotos staying on their side; (2) on both paths that do not carry, the value stored into F is symbolically the value F was compared with (min / clamp forms normalised): a target clamped to the period's length must be clamped before the comparison -- the rule that exposed and now guards the repaired defect `dround -n 2012-02-29 31` = unchanged; (3) both co-class roundings reach the remainder only through the accepting edges of the zero-divisor and divides-the-day tests (CFG dominance and reachability), take the remainder of the rounded value by that divisor, leave a multiple untouched without --next and move by divisor - remainder / divisor / remainder otherwise; (4) seconds since midnight and months since year 0 are split with the constants they were packed with, a year is 12 and a quarter 3 months, an underflow borrows 86400 s; (5) co-class business-day rounding lands a weekend day on Friday going back and on Monday going forward; (6) dt_round turns the day carry of the time rounding into that many days added to the date, resets it, and only then rounds the date.",
+   note="That the result is the nearest value with the requested field for every input, that finer fields keep their values, and idempotence as a whole are NOT decided: they compare the result with every other candidate. A rounding sibling rewritten in another shape is reported as not recognised (exit 2). Thin claim, stated as such.",
+   technique="static analysis: sibling agreement on a four-way decision template (AST), symbolic equality of compared and stored value on the no-carry paths, CFG dominance / reachability of divisor gates, linear forms of the moves, packing / splitting constant agreement",
+   ref="DESIGN.md §4 C16")
 
 
 CLAIMED["C03"] = dict(
